@@ -1,0 +1,47 @@
+//go:build verif
+
+// Contracts for package response, checked by /verif (govc). Comment-only.
+package response
+
+// ---------------------------------------------------------------------------------------------
+// C09: what a full-sync response batch carries. The producer is built from the requester's snapshot
+// path and heads (in that order) and every batch it emits is exactly what the load iterator produced:
+// the iterator's changes with the iterator's running heads, path and root - never the tree's current
+// heads, which may name changes that were not sent yet.
+//@ ghost ldrPath Slice stable
+//@ ghost ldrHeads Slice stable
+//@ ghost ldrResult Iface stable
+//@ ghost nbHeads Slice stable
+//@ ghost nbBatch Slice stable
+//@ ghost nbPath Slice stable
+//@ ghost nbRoot Ptr stable
+//@ ghost nbSize Int stable
+//@ func iface objecttree.ObjectTree.ChangesAfterCommonSnapshotLoader
+//@   modifies nothing
+//@   sets ldrPath = arg1
+//@   sets ldrHeads = arg2
+//@   sets ldrResult = result0
+//@ func iface objecttree.ObjectTree.Id
+//@   pure
+//@ func iface objecttree.LoadIterator.NextBatch
+//@   modifies nothing
+//@   sets nbHeads = result0.Heads
+//@   sets nbBatch = result0.Batch
+//@   sets nbPath = result0.SnapshotPath
+//@   sets nbRoot = result0.Root
+//@   sets nbSize = maxSize
+
+//@ func NewResponseProducer
+//@   requires tree != nil
+//@   ensures [error_gives_no_producer]   result1 != nil ==> result0 == nil
+//@   ensures [path_then_heads]           ldrPath == theirSnapshotPath && ldrHeads == theirHeads
+//@   ensures [streams_from_that_loader]  result1 == nil ==> result0 != nil && cast(result0, "*responseProducer").iterator == ldrResult && cast(result0, "*responseProducer").tree == tree && cast(result0, "*responseProducer").spaceId == spaceId && cast(result0, "*responseProducer").objectId == tree.Id()
+
+//@ func (*responseProducer).NewResponse
+//@   requires r != nil && r.iterator != nil
+//@   ensures [never_nil]               result0 != nil
+//@   ensures [batch_limit_passed_on]   nbSize == batchSize
+//@   ensures [announces_running_heads] result1 == nil ==> result0.Heads == nbHeads
+//@   ensures [sends_the_batch]         result1 == nil ==> result0.Changes == nbBatch && result0.SnapshotPath == nbPath && result0.Root == nbRoot
+//@   ensures [names_the_object]        result1 == nil ==> result0.SpaceId == r.spaceId && result0.ObjectId == r.objectId
+//@   ensures [error_sends_nothing]     result1 != nil ==> len(result0.Changes) == 0 && len(result0.Heads) == 0
